@@ -400,3 +400,80 @@ func pause(k int) {
 		time.Sleep(10 * time.Millisecond)
 	}
 }
+
+// TerminalState reports whether a goroutine state is a wait that only another
+// goroutine can end (channel, select, sync) - as opposed to running, runnable,
+// sleeping, waiting for I/O or in a system call.
+func TerminalState(st string) bool {
+	switch st {
+	case "chan send", "chan receive", "select", "semacquire", "sync.Mutex.Lock", "sync.RWMutex.RLock", "sync.RWMutex.Lock", "sync.Cond.Wait", "sync.WaitGroup.Wait",
+		"chan send (nil chan)", "chan receive (nil chan)", "select (no cases)":
+		return true
+	}
+	return false
+}
+
+// Quiescent is the whole-process deadlock predicate used by the schedule
+// controllers of C15 and C16: it reports ok when every goroutine that has a
+// library frame or a frame of the harness package (function prefix
+// harnessPrefix), other than the excluded ids (the controller itself,
+// goroutines already attributed to earlier cases), is parked in a terminal
+// wait, and the set is unchanged over n spaced samples. When the controller -
+// the only goroutine that could still open a gate - is itself waiting, such a
+// state can never change. lib holds the library goroutines (Frame = innermost
+// library frame), mine the harness-only ones.
+func Quiescent(exclude map[int64]bool, harnessPrefix string, n, max int) (lib, mine []Hit, samples int, ok bool) {
+	all := Query{Any: true, Exclude: exclude}
+	s := all.Stable(n, max)
+	if !s.Stable {
+		return nil, nil, s.Samples, false
+	}
+	for _, h := range s.Hits {
+		isLib, isMine := false, false
+		var libFrame Frame
+		for _, f := range h.G.Frames {
+			if !isLib && strings.HasPrefix(f.Func, LibPrefix) {
+				isLib, libFrame = true, f
+			}
+			if harnessPrefix != "" && strings.HasPrefix(f.Func, harnessPrefix) {
+				isMine = true
+			}
+		}
+		if !isLib && !isMine {
+			continue
+		}
+		if !TerminalState(h.G.State) {
+			return nil, nil, s.Samples, false
+		}
+		if isLib {
+			h.Frame = libFrame
+			lib = append(lib, h)
+		} else {
+			mine = append(mine, h)
+		}
+	}
+	return lib, mine, s.Samples, true
+}
+
+// HasFrame reports whether the goroutine has a frame whose function contains sub.
+func (g *G) HasFrame(sub string) bool {
+	for _, f := range g.Frames {
+		if strings.Contains(f.Func, sub) {
+			return true
+		}
+	}
+	return false
+}
+
+// Describe renders hits for violation details.
+func Describe(hits []Hit) []string {
+	var out []string
+	for _, h := range hits {
+		file := h.Frame.File
+		if i := strings.LastIndexByte(file, '/'); i >= 0 {
+			file = file[i+1:]
+		}
+		out = append(out, "g"+strconv.FormatInt(h.G.ID, 10)+" ["+h.G.State+"] "+ShortFunc(h.Frame.Func)+" ("+file+":"+strconv.Itoa(h.Frame.Line)+")")
+	}
+	return out
+}
